@@ -40,6 +40,7 @@ type Contract struct {
 	PanicsIf  *SExp
 	Loops     map[int]*LoopAnn
 	Inline    bool
+	AutoLoops bool
 	Trusted   bool
 	Sweep     bool
 	Uses      []string
@@ -179,6 +180,9 @@ func (p *Prog) parseContract(x *SExp, pkg string) (*Contract, error) {
 				c.SplitReturns = true
 			case "int":
 				c.Int = true
+			case "autoloops":
+				// unannotated loops are cut with inferred invariants and termination measures (as in sweep mode)
+				c.AutoLoops = true
 			default:
 				return nil, fmt.Errorf("%s: unknown flag %s", name, it.Atom)
 			}
@@ -807,6 +811,14 @@ func (p *Prog) elab(fx *Fx, x *SExp, env *Env) Val {
 			return tv(r)
 		}
 		return tv(IntOp(h, r, T(1)))
+	case "uint":
+		// (uint x): the unsigned value of a bit-vector as a mathematical integer
+		return tv(bv2nat(T(0)))
+	case "sint":
+		x0 := T(0)
+		w := x0.S.W
+		two := new(big.Int).Lsh(big.NewInt(1), uint(w))
+		return tv(Ite(BVOp("bvslt", x0, BVConst(0, w)), IntOp("-", bv2nat(x0), IntConstBig(two)), bv2nat(x0)))
 	case "zext":
 		w, _ := strconv.Atoi(args[1].Atom)
 		return tv(ZeroExt(T(0), w))
